@@ -236,9 +236,41 @@ func indexedTokens(c *database.Command) map[string]bool {
 	return out
 }
 
+// c13SharedMap: the CLI hands ONE boost table (the detected project context) to its searches.  After an NLP search was
+// given that table, a later search given the same table must answer exactly as with a pristine copy of it: the table
+// here boosts a word no command contains, so with and without it the answers must be identical - unless an earlier
+// search wrote its own per-query emphasis into the caller's table.
+func c13SharedMap(mon *Mon, cur *SearchRecord) {
+	defer func() { recover() }() // panics are C10's subject
+	shared := map[string]float64{"qqzzxxjj": 2.0}
+	o1 := cur.Opts
+	o1.UseNLP, o1.ContextBoosts = true, shared
+	cur.DB.SearchUniversal(cur.Query, o1)
+	for _, nlpOn := range []bool{false, true} {
+		with, fresh := cur.Opts, cur.Opts
+		with.UseNLP, fresh.UseNLP = nlpOn, nlpOn
+		with.ContextBoosts, fresh.ContextBoosts = shared, map[string]float64{"qqzzxxjj": 2.0}
+		a, b := cur.DB.SearchUniversal(cur.Query, with), cur.DB.SearchUniversal(cur.Query, fresh)
+		if !sameAnswer(cur.DB, a, cur.DB, b) {
+			keys := []string{}
+			for k := range shared {
+				keys = append(keys, k)
+			}
+			sort.Strings(keys)
+			mon.Hit("C13", "context-lowered-score", map[string]interface{}{"query": cur.Query, "nlp": nlpOn, "what": "a boost table reused after an NLP search answers differently from a pristine copy of it",
+				"table_now": keys, "with_reused": answerIDs(cur.DB, a), "with_pristine": answerIDs(cur.DB, b)})
+			return
+		}
+	}
+	mon.Tag("c13-shared-table-reused")
+}
+
 func monitorC13(mon *Mon, cur *SearchRecord, prev []*SearchRecord) {
 	if cur.Panic != "" {
 		return
+	}
+	if cur.Opts.UseNLP && len(cur.Results) > 0 {
+		c13SharedMap(mon, cur)
 	}
 	// the most recent earlier search of this case that differs from cur only in the boosts, one side without any
 	var other *SearchRecord
